@@ -47,6 +47,11 @@ class PathLimit(Exception):
     pass
 
 
+class BudgetExceeded(BaseException):
+    """wall-clock budget of the function under verification is used up: everything still open is
+    undecided (never a verdict).  BaseException so that no handler of the engine swallows it."""
+
+
 def I(x):
     return z3.IntVal(x)
 
@@ -111,6 +116,8 @@ class Engine:
         self.static_next = -1
         self.cut_memo = {}
         self.cut_stats = {}
+        self.deadline = None       # wall-clock budget per function under verification (set by contracts.verify)
+        self.cur_env = None
         self.reset_path([])
 
     # ---------------------------------------------------------- path state
@@ -444,6 +451,12 @@ class Engine:
             self.exec_stmt(st, env)
 
     def exec_stmt(self, st, env):
+        self.cur_env = env
+        dl = self.deadline
+        if dl is not None:
+            import time as _t
+            if _t.time() > dl:
+                raise BudgetExceeded('time budget for this function exceeded')
         m = getattr(self, 'st_' + type(st).__name__, None)
         if m is None:
             raise Unsupported('statement %s at line %d' % (type(st).__name__, st.lineno))
